@@ -33,12 +33,19 @@ CORPORA = {
     "boxed": dict(model="MC_Build", cfg="MC_Boxed", quick=dict(MaxTotal=8), thorough=dict(MaxTotal=17), profiles=DEV_REL, place="end"),
     "builder": dict(model="MC_Build", cfg="MC_Builder", quick=dict(MaxSeq=2), thorough=dict(MaxSeq=3), profiles=DEV_REL, place="end"),
     "hbuilder": dict(model="MC_Build", cfg="MC_HBuilder", quick=dict(MaxSeq=3), thorough=dict(MaxSeq=4), profiles=DEV_REL, place="end"),
+    "str": dict(model="MC_Info", cfg="MC_Str", quick=dict(MaxStr=3), thorough=dict(MaxStr=4), profiles=DEV_REL, place="both"),
     "load": dict(model="MC_Load", quick=dict(MaxT=72), thorough=dict(MaxT=160), profiles=DEV_REL, place="both"),
     "walk": dict(model="MC_Walk", quick=dict(MaxT=32), thorough=dict(MaxT=40), profiles=DEV_REL, place="both"),
 }
 
 # property -> list of corpus names; nontrivial rule used for evidence
 CHECKS = {
+    "C15": dict(corpora=["dst", "hdst", "fields", "getters"],
+                rule="every built-in kind of both crates viewed at every declared size (variable-length kinds 0..base+3*elem+DstExtra, "
+                     "header-tag kinds 0..40) and at its conformant size; non-trivial = casts that return a view"),
+    "C17": dict(corpora=["str", "ctor", "dst"],
+                rule="parse: all strings of length <= MaxStr over a 10-byte alphabet (NUL, ASCII, pieces of 2/3/4-byte sequences, invalid bytes) "
+                     "x every cut of the declared size x 3 string kinds; build: texts of length 0..MaxContent with and without trailing NUL"),
     "C06": dict(corpora=["builder"],
                 rule="all call sequences up to MaxSeq over 7 representative slots x 2 contents; every one of the 22 slots alone and in all ordered pairs"),
     "C07": dict(corpora=["ctor", "builder", "hbuilder"],
